@@ -29,6 +29,7 @@ import (
 	"github.com/33cn/chain33/common/crypto"
 	_ "github.com/33cn/chain33/system"
 	"github.com/33cn/chain33/types"
+	"github.com/33cn/chain33/wallet"
 
 	"verifharness/internal/gen"
 	_ "verifharness/internal/quiet"
@@ -76,6 +77,7 @@ type world struct {
 	extKey string // a private key the caller supplies in SignRawTx requests (not in the wallet)
 	extPub []byte
 	nsign  int
+	rep    *fakeReporter
 
 	// ghost
 	auth    bool
@@ -103,11 +105,27 @@ func must(err error, what string) {
 	}
 }
 
+// fakeReporter is a mineStatusReporter as a consensus (mining) plugin registers one; none exists in this repository.
+type fakeReporter struct {
+	unlocked int32
+	name     string
+}
+
+func (f *fakeReporter) IsAutoMining() bool   { return false }
+func (f *fakeReporter) IsTicketLocked() bool { return atomic.LoadInt32(&f.unlocked) == 0 }
+func (f *fakeReporter) PolicyName() string   { return f.name }
+
 // newWorld: fresh wallet directory, seed saved under pw0, two derived accounts and one imported key, locked.
 func newWorld(r *gen.Rand) *world {
 	worldSeq++
 	dir := filepath.Join(tmpRoot, fmt.Sprintf("w%d", worldSeq))
 	w := &world{e: newEnv(dir, "secp256k1"), keys: map[string]string{}}
+	w.rep = &fakeReporter{name: w.e.cfg.GetModuleConfig().Consensus.Name}
+	w.e.afterOpen = func(wl *wallet.Wallet) {
+		atomic.StoreInt32(&w.rep.unlocked, 0) // a restarted node: the plugin starts with the ticket locked
+		wl.RegisterMineStatusReporter(w.rep)
+	}
+	w.e.afterOpen(w.e.w)
 	var writes int64
 	w.e.setOnPoint(func(p string) {
 		if p == "write" {
@@ -234,8 +252,6 @@ func (w *world) guardedBattery() []gres {
 		rs = append(rs, gres{"DumpPrivkeysFile.file", "file-written-although-error"})
 	}
 	os.Remove(fn)
-	ks, err := w.e.w.GetAllPrivKeys()
-	add("GetAllPrivKeys", err == nil && len(ks) == len(w.addrs), err)
 	if !w.auth {
 		// handlers that would store a new key / spend from every account: only tried while the wallet must be locked
 		w.nextra++
@@ -253,11 +269,15 @@ func (w *world) guardedBattery() []gres {
 
 func (w *world) classify(rs []gres) string {
 	allSecret, allLocked := true, true
+	lockErr := "ErrWalletIsLocked"
+	if len(rs) > 0 && rs[0].res == "ErrOnlyTicketUnLocked" {
+		lockErr = "ErrOnlyTicketUnLocked" // checkWalletStatus when a mining plugin reports the ticket unlocked
+	}
 	for _, g := range rs {
 		if g.res != "secret" {
 			allSecret = false
 		}
-		if g.res != "ErrWalletIsLocked" {
+		if g.res != lockErr {
 			allLocked = false
 		}
 		if g.res == "secret" && !w.auth {
@@ -269,7 +289,7 @@ func (w *world) classify(rs []gres) string {
 		return "secret"
 	}
 	if allLocked {
-		return "ErrWalletIsLocked"
+		return lockErr
 	}
 	var parts []string
 	for _, g := range rs {
@@ -487,6 +507,17 @@ func (w *world) exec(script []string, r *gen.Rand) {
 				continue
 			}
 			out.Op(line, w.classify(w.guardedBattery()))
+		case "reporter":
+			atomic.StoreInt32(&w.rep.unlocked, int32(b01(bit(1))))
+			out.Op(line, "ok")
+		case "gticket":
+			if w.sp != nil {
+				continue
+			}
+			if w.armedT && time.Since(w.unlockT) > time.Duration(timerSecs)*time.Second*4/10 {
+				continue
+			}
+			out.Op(line, w.ticketPaths())
 		case "sign":
 			if w.sp != nil || len(f) < 3 {
 				continue // needs wallet.mtx: would wait for the held call
@@ -872,6 +903,54 @@ func signScripts() [][]string {
 	}
 }
 
+// ticketPaths: the two paths that accept "wallet locked, ticket unlocked" by design (mining mode): GetAllPrivKeys (plugin
+// interface) and a transfer to the consensus contract.
+func (w *world) ticketPaths() string {
+	var rs []gres
+	ks, err := w.e.w.GetAllPrivKeys()
+	switch {
+	case err != nil:
+		rs = append(rs, gres{"GetAllPrivKeys", errName(err)})
+	case len(ks) >= len(w.addrs):
+		rs = append(rs, gres{"GetAllPrivKeys", "secret"})
+	default:
+		rs = append(rs, gres{"GetAllPrivKeys", "wrong-answer"})
+	}
+	rep, err := w.e.w.GetAPI().ExecWalletFunc("wallet", "WalletSendToAddress",
+		&types.ReqWalletSendToAddress{From: w.addrs[0], To: address.ExecAddress(w.rep.name), Amount: 100000000, Note: "verif-ticket"})
+	switch {
+	case err != nil:
+		rs = append(rs, gres{"WalletSendToAddress(consensus)", errName(err)})
+	case len(rep.(*types.ReplyHash).Hash) > 0:
+		rs = append(rs, gres{"WalletSendToAddress(consensus)", "secret"})
+	default:
+		rs = append(rs, gres{"WalletSendToAddress(consensus)", "wrong-answer"})
+	}
+	ticket := atomic.LoadInt32(&w.rep.unlocked) == 1
+	same := rs[0].res == rs[1].res
+	for _, g := range rs {
+		if g.res == "secret" && !w.auth {
+			if ticket {
+				out.Stat("ticket_mode_key_use_while_locked_"+g.name, 1) // declared scope (by design)
+			} else {
+				out.Pred("C38|"+g.name+"|secret-returned-without-successful-unlock", g.name+" handed out / used stored keys on a locked wallet although no mining plugin reports the ticket unlocked")
+			}
+		}
+	}
+	if same {
+		return rs[0].res
+	}
+	return "mixed:" + rs[0].name + "=" + rs[0].res + "," + rs[1].name + "=" + rs[1].res
+}
+
+func ticketScripts() [][]string {
+	s := []string{"gticket", "reporter 1", "read", "gticket", "guarded"}
+	s = append(s, signMatrix()...)
+	s = append(s, "unlock 0 1 0", "unlock 1 1 0", "read", "gticket", "guarded", "lock", "gticket",
+		"reporter 0", "gticket", "guarded", "unlock 1 0 0", "gticket", "reporter 1", "gticket", "guarded", "lock", "read", "gticket", "guarded", "reporter 0")
+	return [][]string{s}
+}
+
 // ---------------------------------------------------------------- script generators
 
 func witnessScript() []string {
@@ -899,7 +978,11 @@ func randomScript(r *gen.Rand, n int) []string {
 	pendUsed := false
 	for len(s) < n {
 		if held == "" {
-			switch r.Pick(18, 10, 14, 8, 30, 6, 24, 16) {
+			switch r.Pick(18, 10, 14, 8, 30, 6, 24, 16, 5, 8) {
+			case 8:
+				s = append(s, fmt.Sprintf("reporter %d", b01(r.Bool())))
+			case 9:
+				s = append(s, "gticket")
 			case 7:
 				s = append(s, "sign "+addrKinds[r.Intn(3)]+" "+privKinds[r.Intn(3)])
 			case 6:
@@ -1309,6 +1392,7 @@ func runScripts(r *gen.Rand, scripts [][]string, memPw bool) {
 		}
 		w.e.w.ProcWalletLock()
 		w.auth = false
+		atomic.StoreInt32(&w.rep.unlocked, 0)
 		if !memPw {
 			w.e.restart()
 		} else if w.e.w.GetPassword() == "" {
@@ -1361,6 +1445,8 @@ func main() {
 	}
 	runScripts(r, signScripts(), true)
 	runScripts(r, signScripts(), false)
+	runScripts(r, ticketScripts(), true)
+	runScripts(r, ticketScripts(), false)
 	phase("scripts")
 	runScripts(r, timerScripts(), true)
 	phase("timers")
